@@ -617,7 +617,7 @@ def sweep_cases(size, quick):
 
 def plan(tier, seed):
     quick = tier == "quick"
-    per = 100 if quick else 1500
+    per = 100 if quick else 1250
     tasks = []  # the systematic sweeps first: they must not be starved when the budget is hit on a loaded machine
     for size in (0, 2) if quick else (245, 244, 0, 2):
         of = 1 if size < 100 else 8
